@@ -36,8 +36,8 @@ impl Prop for P {
     }
     fn strategy(tier: Tier) -> BoxedStrategy<Case> {
         let data = match tier {
-            Tier::Quick => prop_oneof![6 => recipe(3000, 4), 3 => recipe(50_000, 3), 1 => recipe(200_000, 2)].boxed(),
-            Tier::Thorough => prop_oneof![5 => recipe(3000, 5), 3 => recipe(80_000, 4), 2 => recipe(1_000_000, 3)].boxed(),
+            Tier::Quick => prop_oneof![6 => recipe(3000, 4), 3 => recipe(50_000, 3), 1 => recipe(200_000, 2), 2 => crate::gen::data::recipe_wrap()].boxed(),
+            Tier::Thorough => prop_oneof![5 => recipe(3000, 5), 3 => recipe(80_000, 4), 2 => recipe(1_000_000, 3), 3 => crate::gen::data::recipe_wrap()].boxed(),
         };
         (data, config(), schedule(8)).prop_map(|(data, cfg, sched)| Case { data, cfg, sched }).boxed()
     }
